@@ -251,14 +251,18 @@ func (e *Env) eval(x SExpr) SVal {
 		}
 		pat := ""
 		if len(n.Trig) > 0 {
-			var ps []string
-			for _, tr := range n.Trig {
-				ps = append(ps, ne.rv(ne.eval(tr)).S)
+			var pats []string
+			for _, grp := range n.Trig {
+				var ps []string
+				for _, tr := range grp {
+					ps = append(ps, ne.rv(ne.eval(tr)).S)
+				}
+				pats = append(pats, ":pattern ("+strings.Join(ps, " ")+")")
 			}
-			return SVal{t: Term{fmt.Sprintf("(%s (%s) (! %s :pattern (%s)))", kw, strings.Join(decls, " "), body.S, strings.Join(ps, " ")), "Bool"}, gt: types.Typ[types.Bool]}
+			return SVal{t: Term{fmt.Sprintf("(%s (%s) (! %s %s :qid spec%d))", kw, strings.Join(decls, " "), body.S, strings.Join(pats, " "), e.s.x.counter), "Bool"}, gt: types.Typ[types.Bool]}
 		}
 		_ = pat
-		return SVal{t: Term{fmt.Sprintf("(%s (%s) %s)", kw, strings.Join(decls, " "), body.S), "Bool"}, gt: types.Typ[types.Bool]}
+		return SVal{t: Term{fmt.Sprintf("(%s (%s) (! %s :qid spec%d))", kw, strings.Join(decls, " "), body.S, e.s.x.counter), "Bool"}, gt: types.Typ[types.Bool]}
 	}
 	e.fail("cannot evaluate %T", x)
 	return SVal{}
@@ -618,7 +622,7 @@ func (e *Env) call(n *SCall) SVal {
 			}
 		}
 		if t.Sort == sortStr {
-			return SVal{t: app("Int", "str.len", t), gt: intT}
+			return SVal{t: app("Int", "strlen!", t), gt: intT}
 		}
 		e.fail("len of %s", t.Sort)
 	case "cap":
@@ -845,7 +849,7 @@ func (e *Env) call(n *SCall) SVal {
 				}
 				e.s.x.counter++
 				r := fmt.Sprintf("r!s%d", e.s.x.counter)
-				cs = append(cs, Term{fmt.Sprintf("(forall ((%s Int)) (=> (and (< 0 %s) (<= %s %s)) (= (select %s %s) (select %s %s))))", r, r, r, sn.alloc.S, cur.S, r, old.S, r), "Bool"})
+				cs = append(cs, Term{fmt.Sprintf("(forall ((%s Int)) (! (=> (and (< 0 %s) (<= %s %s)) (= (select %s %s) (select %s %s))) :pattern ((select %s %s)) :qid samesince))", r, r, r, sn.alloc.S, cur.S, r, old.S, r, cur.S, r), "Bool"})
 			}
 		}
 		return SVal{t: mkAnd(cs...), gt: boolT}
@@ -888,7 +892,7 @@ func (e *Env) call(n *SCall) SVal {
 			}
 			e.s.x.counter++
 			r := fmt.Sprintf("r!s%d", e.s.x.counter)
-			cs = append(cs, Term{fmt.Sprintf("(forall ((%s Int)) (=> (and (< 0 %s) (<= %s %s)) (= (select %s %s) (select %s %s))))", r, r, r, e.old.alloc.S, cur.S, r, old.S, r), "Bool"})
+			cs = append(cs, Term{fmt.Sprintf("(forall ((%s Int)) (! (=> (and (< 0 %s) (<= %s %s)) (= (select %s %s) (select %s %s))) :pattern ((select %s %s)) :qid unchangedall))", r, r, r, e.old.alloc.S, cur.S, r, old.S, r, cur.S, r), "Bool"})
 		}
 		return SVal{t: mkAnd(cs...), gt: boolT}
 	case "unchanged":
@@ -949,7 +953,7 @@ func (e *Env) applySpecFunc(fd *specFuncDecl, args []SVal) SVal {
 	if len(args) != len(fd.Params) {
 		e.fail("%s expects %d arguments", fd.Name, len(fd.Params))
 	}
-	if fd.Body != nil && !fd.Rec {
+	if fd.Body != nil && !fd.Rec && !fd.Opaque {
 		// macro expansion in the current heap context
 		if e.depth > 40 {
 			e.fail("spec function expansion too deep (%s)", fd.Name)
